@@ -481,6 +481,51 @@ def builtin(ex, st, fr, name, a, x, work):
         for k, v in enumerate(vals): ex.store_val(st, Ptr(out.obj, out.off + 4 * k), I32, v & 0xffffffff)
         ex.store_val(st, Ptr(out.obj, out.off + 40), I64, 0); ex.store_val(st, Ptr(out.obj, out.off + 48), PTR(I8), NULL)
         return out
+    if name in ('snprintf', 'sprintf', '__snprintf_chk'):
+        # concrete format and concrete arguments only: formatted exactly as C does (Python's % operator implements the same conversions)
+        S.add('snprintf with concrete arguments -> exact C formatting')
+        if name == 'snprintf': buf, size, fmtp, va = a[0], a[1], a[2], list(a[3:])
+        elif name == '__snprintf_chk': buf, size, fmtp, va = a[0], a[1], a[4], list(a[5:])
+        else: buf, size, fmtp, va = a[0], 1 << 30, a[1], list(a[2:])
+        if not isc(size): raise Violation('unsupported', 'snprintf with a symbolic size', st)
+        fb = []
+        for i in range(4096):
+            b = ex.load_val(st, Ptr(fmtp.obj, fmtp.off + i), I8)
+            if not isc(b): raise Violation('unsupported', 'snprintf with a symbolic format', st)
+            if b == 0: break
+            fb.append(b)
+        fmt = bytes(fb).decode('latin1'); out = ''; pos = 0
+        for m in _re.finditer(r'%([-+ #0]*)(\d+|\*)?(?:\.(\d+|\*))?(hh|h|ll|l|z|j|t|L)?([diuoxXeEfFgGcs%])', fmt):
+            out += fmt[pos:m.start()]; pos = m.end()
+            conv = m.group(5)
+            if conv == '%': out += '%'; continue
+            if m.group(2) == '*' or m.group(3) == '*': raise Violation('unsupported', 'snprintf with * width', st)
+            v = va.pop(0)
+            spec = '%' + m.group(1) + (m.group(2) or '') + ('.' + m.group(3) if m.group(3) is not None else '')
+            if conv in 'eEfFgG':
+                if isc(v): val = struct.unpack('<d', struct.pack('<Q', v))[0]
+                else:
+                    v = z3.simplify(v)
+                    if z3.is_rational_value(v): val = float(v.numerator_as_long()) / float(v.denominator_as_long())
+                    elif z3.is_bv_value(v): val = struct.unpack('<d', struct.pack('<Q', v.as_long()))[0]
+                    elif z3.is_fp_value(v): val = struct.unpack('<d', struct.pack('<Q', z3.simplify(z3.fpToIEEEBV(v)).as_long()))[0]
+                    else: raise Violation('unsupported', 'snprintf of a symbolic floating point value', st)
+                out += (spec + conv) % val
+            elif conv in 'diuoxXc':
+                if not isc(v): raise Violation('unsupported', 'snprintf of a symbolic integer', st)
+                bits = 64 if m.group(4) in ('l', 'll', 'z', 'j', 't') else 32
+                v &= (1 << bits) - 1
+                if conv in 'di' and v >> (bits - 1): v -= 1 << bits
+                out += (spec + ('d' if conv == 'i' else conv)) % v
+            else:
+                bs = cstr(ex, st, v); out += (spec + 's') % bytes(bs).decode('latin1')
+        out += fmt[pos:]
+        ob = out.encode('latin1')
+        if size > 0:
+            w = ob[:size - 1]
+            for i, b in enumerate(w): ex.store_val(st, Ptr(buf.obj, buf.off + i), I8, b)
+            ex.store_val(st, Ptr(buf.obj, buf.off + len(w)), I8, 0)
+        return len(ob) & 0xffffffff
     if name in ('nanosleep', 'usleep', 'sleep', 'sched_yield'):
         S.add('sleep functions -> return at once (time is not modelled)'); return 0
     if name == 'fnmatch':
